@@ -105,11 +105,13 @@ func c13Run(r *run.Runner, c c13Case) {
 		if phase == 0 {
 			return Render(&RespSpec{Status: 200, CC: []string{storedCC}, ETag: `"s"`, BodySize: 10, Extra: map[string][]string{"X-Extra": {"1"}}}, uc.Enter, uc.Serial)
 		}
+		// the failure takes a while to arrive for some cases: Age is the age at hand-over
+		delay := float64((c.StaleS + c.N) % 3 * 2)
 		if c.Failure == "err" {
-			return Render(&RespSpec{Err: true}, uc.Enter, uc.Serial)
+			return Render(&RespSpec{Err: true, DelayS: delay}, uc.Enter, uc.Serial)
 		}
 		st, _ := strconv.Atoi(c.Failure)
-		rs := RespSpec{Status: st, BodySize: 5}
+		rs := RespSpec{Status: st, BodySize: 5, DelayS: delay}
 		if c.Placement == "error-reply-only" {
 			rs.CC = []string{"stale-if-error=" + itoa(c.N)}
 		}
@@ -153,7 +155,8 @@ func c13Run(r *run.Runner, c c13Case) {
 		window = max(window, c.N2)
 	}
 	excluded := c.Exclude == "must-revalidate" || c.Exclude == "no-cache" || c.Exclude == "req-no-cache"
-	mustServe := eligibleFailure && !excluded && window >= 0 && c.StaleS <= window-1
+	failDelay := (c.StaleS + c.N) % 3 * 2 // seconds the failure takes to arrive; staleness may be taken at either end
+	mustServe := eligibleFailure && !excluded && window >= 0 && c.StaleS+failDelay <= window-1
 	mustNot := !eligibleFailure || excluded || window < 0 || c.StaleS >= window+1
 	sig := fmt.Sprintf("placement=%s,failure=%s,exclude=%s", c.Placement, failClass(c.Failure), c.Exclude)
 	obs := exSummaries(w)
@@ -173,7 +176,7 @@ func c13Run(r *run.Runner, c c13Case) {
 			r.Violation("not-marked-stale", sig, "stored response returned under stale-if-error is not marked STALE; "+ex.Summary(), obs)
 		default:
 			got, err := strconv.ParseInt(ex.Header.Get("Age"), 10, 64)
-			want := int64(L + c.StaleS)
+			want := int64(L+c.StaleS) + (c.StaleS+c.N)%3*2
 			if err != nil || got < want-1 || got > want+1 {
 				r.Violation("age-wrong", sig, fmt.Sprintf("Age %q, expected about %d; %s", ex.Header.Get("Age"), want, ex.Summary()), obs)
 			}
